@@ -344,4 +344,96 @@ impl<'c, Q: Queue> Interp<'c, Q> {
         self.stats.hit("serde_roundtrip");
         self.force_drain = true;
     }
+
+    #[cfg(not(feature = "std"))]
+    pub fn do_deser_seq(&mut self, _pairs: &[(u32, u32, i64)], _carrier: Carrier, _cross: bool) {}
+
+    /// C15 (b): any well-typed pair sequence either is rejected or yields a consistent queue
+    #[cfg(feature = "std")]
+    pub fn do_deser_seq(&mut self, pairs: &[(u32, u32, i64)], carrier: Carrier, cross: bool) {
+        set_default_hb(self.case.hasher);
+        let raw: Vec<((u32, u32), i64)> = pairs.iter().map(|&(id, t, p)| ((id, t), p)).collect();
+        fn de<T: Queue>(raw: &[((u32, u32), i64)], carrier: Carrier) -> Result<T, String> {
+            match carrier {
+                Carrier::JsonText => T::from_json(&serde_json::to_string(raw).unwrap()),
+                Carrier::JsonValue => T::from_value(serde_json::to_value(raw).unwrap()),
+                Carrier::SeqDe => T::from_pairs(raw.to_vec()),
+            }
+        }
+        let mut offered: BTreeMap<u32, Vec<(u32, i64)>> = BTreeMap::new();
+        let mut repeats = false;
+        for &(id, t, p) in pairs {
+            let e = offered.entry(id).or_default();
+            if !e.is_empty() {
+                repeats = true;
+            }
+            e.push((t, p));
+        }
+        if repeats {
+            self.stats.hit("deser_seq_with_repeats");
+        }
+        self.stats.hit("deser_seq");
+        // the model of the result follows the implementation where the property leaves a choice
+        let judge = |content: Vec<Elem>, len: usize, fails: &mut Vec<RawFail>| -> Model {
+            let mut m = Model::new();
+            if len != content.len() {
+                fails.push((Group::Serde, "deser_len_vs_contents", format!("deserialized queue reports len {} but iterates {} elements (input {:?})", len, content.len(), pairs)));
+            }
+            for (id, t, p) in content.iter().copied() {
+                if m.contains(id) {
+                    fails.push((Group::Serde, "deser_duplicate_item", format!("item {} occurs twice in the deserialized queue", id)));
+                }
+                match offered.get(&id) {
+                    None => fails.push((Group::Serde, "deser_invented_item", format!("item {} was not in the input", id))),
+                    Some(v) => {
+                        if !v.iter().any(|x| x.1 == p) {
+                            fails.push((Group::Serde, "deser_wrong_priority", format!("item {} has priority {} which was never given for it ({:?})", id, p, v)));
+                        }
+                        if !v.iter().any(|x| x.0 == t) {
+                            fails.push((Group::Tag, "deser_wrong_payload", format!("item {} has a payload never given for it", id)));
+                        }
+                    }
+                }
+                m.set(id, t, p);
+            }
+            if m.len() != offered.len() {
+                fails.push((Group::Serde, "deser_lost_item", format!("{} distinct items given, {} stored", offered.len(), m.len())));
+            }
+            m
+        };
+        let mut fails = Vec::new();
+        let res: Result<(Q, Model), String> = if cross {
+            de::<Q::Other>(&raw, carrier).map(|o| {
+                let m = judge(content_of(&o), o.len(), &mut fails);
+                if fails.is_empty() {
+                    check_queue(&o, &m, 0, true, self.cfg.tables, &mut fails);
+                    if fails.is_empty() && !m.is_empty() {
+                        drain_check(&o, &m, self.case.drain_bits, &mut fails);
+                    }
+                }
+                (o.into_other(), m)
+            })
+        } else {
+            de::<Q>(&raw, carrier).map(|q| {
+                let m = judge(content_of(&q), q.len(), &mut fails);
+                (q, m)
+            })
+        };
+        self.fails.extend(fails);
+        match res {
+            Err(e) => {
+                if repeats {
+                    self.stats.hit("deser_seq_rejected");
+                } else {
+                    self.fail(Group::Serde, "deser_err_no_repeat", format!("a sequence of distinct items was rejected: {}", e));
+                }
+            }
+            Ok((q, m)) => {
+                self.q = q;
+                self.model = m;
+                self.order_on = true;
+                self.force_drain = true;
+            }
+        }
+    }
 }
